@@ -24,7 +24,8 @@ theorem ntotal_pos (i : Input) : 0 < ntotal i ↔ anyPending i := by
 
 /-- Nothing but glob violations is wrong: the condition under which the code looks at them. -/
 def CleanBeforeGlobs (i : Input) : Prop :=
-  ¬ anyFailed i ∧ i.draining = false ∧ ¬ anyPending i ∧ i.missingTargets = 0 ∧ i.missingDirs = 0
+  ¬ anyFailed i ∧ i.draining = false ∧ ¬ anyPending i ∧ i.missingTargets = 0 ∧ i.missingDirs = 0 ∧
+    i.invalidTargets = 0
 
 theorem returnCode_draining (i : Input) (h : i.draining = true) :
     returnCode i = { failed := decide (0 < nfailed i), drained := true } := by
@@ -32,7 +33,8 @@ theorem returnCode_draining (i : Input) (h : i.draining = true) :
 
 theorem returnCode_running (i : Input) (h : i.draining = false) :
     returnCode i =
-      (let f3 : Flags := { failed := decide (0 < nfailed i), pending := decide (0 < ntotal i),
+      (let f3 : Flags := { failed := decide (0 < nfailed i) || decide (0 < i.invalidTargets),
+                           pending := decide (0 < ntotal i),
                            warning := decide (0 < i.missingTargets) || decide (0 < i.missingDirs) }
        if f3.isZero then f3.or (reportGlobs i).1 else f3) := by
   simp only [returnCode, reportUnbuilt, h, Bool.false_eq_true, if_false]
